@@ -13,7 +13,7 @@
 
    Times are integers in units of 1/65536 s (or beat).  Instructions are uniform records
    [op, a, b, c, s, nk, na]:  Y a=delta | P s=child c=clock("" inherit) a=quant b=phase | ST s=routine (stop) | S a=lat b=kind(0 num,1 None) s=tag
-   nk/na nested bundle (nk 0 none,1 num,2 None) | M s=tag | T c=clock a=num b=den | E raise
+   nk/na nested bundle (nk 0 none,1 num,2 None) | M s=tag | T c=clock a=num b=den | ET same through etempo() (NRT only) | TB c=clock a=beats (beats setter) | E raise
    | X s=routine (pause) | Z s=routine (resume) | K a=seed s=seed name | KC c=child a=seed s=name | D (draw)
    | W s=cond (yield from cond.wait()) | G s=cond a=1/0 (set test true first / just signal)
    main only: U a=lat b=kind s=tag c=delay: a send from a plain thread after `delay` (RT; in NRT an outside send)
@@ -111,6 +111,10 @@ SignalAll(st, lt, ws) ==
                               !.bad = IF ~IsId(c) /\ ~ExactS2B(st.clk[c], lt) THEN "nondyadic" ELSE st.bad]
          IN SignalAll(s1, lt, Tail(ws))
 
+(* clock.beats = v at logical time lt: the map is re-based so that lt <-> v; pending beats keep their value *)
+SetBeats(st, lt, c, v) ==
+    [st EXCEPT !.clk = Put(st.clk, c, [st.clk[c] EXCEPT !.bs = lt, !.bb = v])]
+
 (* run routine r's body from its pc until it yields, ends or raises; p = its scheduled position *)
 RECURSIVE Exec(_, _, _, _, _, _)
 Exec(st, prog, mode, r, lt, p) ==
@@ -131,7 +135,9 @@ Exec(st, prog, mode, r, lt, p) ==
                 s1 == adv(st) IN
             Exec([s1 EXCEPT !.rt = Put(s1.rt, i.s, [o EXCEPT !.st = "done"])], prog, mode, r, lt, p)
       [] i.op \in {"S", "M"} -> Exec(Send(adv(st), mode, r, TRUE, lt, i), prog, mode, r, lt, p)
-      [] i.op = "T" -> Exec(SetTempo(adv(st), lt, i.c, i.a, i.b), prog, mode, r, lt, p)
+      [] i.op \in {"T", "ET"} ->      \* tempo setter; etempo() re-bases at elapsed time, which in NRT is the logical time
+            Exec(SetTempo(adv(st), lt, i.c, i.a, i.b), prog, mode, r, lt, p)
+      [] i.op = "TB" -> Exec(SetBeats(adv(st), lt, i.c, i.a), prog, mode, r, lt, p)
       [] i.op = "X" ->      \* pause another routine: it stays queued but will not run when its turn comes
             LET o == st.rt[i.s]
                 s1 == adv(st) IN
